@@ -24,12 +24,13 @@ ASSUMPTIONS = [
     'these diagonal patterns is c*T',
 ]
 OPEN_STATEMENTS = [
-    'jw_exact / jw_majorana_exact / jw_one_body_sound / jw_two_body_sound / jw_interaction_op_sound / jw_dch_sound are proved under the decidable hypothesis "exact regime" '
+    'jw_exact / jw_majorana_exact / jw_one_body_sound / jw_two_body_sound / jw_interaction_op_sound / jw_dch_sound / reverse_jw_sound are proved under the decidable hypothesis "exact regime" '
     '(no non-zero value deleted by the |v| < EQ_TOLERANCE test of +=); without it the statements are false by '
     'design of the library; the hypothesis is evaluated by the Model on every generated input and counted in the '
     'distribution (theorem-hypothesis exact-regime)',
-    'reverse_jw_left_inverse (normal_ordered(reverse_jw(jw A)) = normal_ordered A): NOT proved; correspondence of the '
-    'reverse transform + Spec oracle (the returned FermionOperator acts like the QubitOperator) + exact round trips',
+    'reverse_jw_left_inverse is proved as an operator identity (reverse_jw(jw A) acts like A); the literal statement '
+    '"normal_ordered(reverse_jw(jw A)) == normal_ordered(A) as dictionaries" additionally needs the uniqueness of normal '
+    'ordered forms (property C03) and is checked exactly on random A',
     'linearity / multiplicativity / dagger-compatibility of jordan_wigner are consequences of jw_exact in the Spec '
     'semantics (jw_mul_sound, jw_add_sound are the Model-level halves); they are not stated as separate theorems and '
     'are checked exactly on the implementation\'s values',
@@ -527,7 +528,7 @@ def stream_reverse(ctx):
         jF = enc_op('fermion', F.terms)
         n = max(modes_of(jQ), modes_of(jF))
         b.add('reverse_jordan_wigner', case, jF, {'op': 'c04.reverse', 'Q': jQ},
-              oracle('fermion', n, ['op', jF], jQ), canonical=False)
+              oracle('fermion', n, ['op', jF], jQ), canonical=False, regime_req={'op': 'c04.reverse_ok', 'Q': jQ})
     b.flush()
     rng = rng_for(ctx.seed, 'c04-roundtrip')
     for _ in range(budget(ctx.tier, 40, 400)):
